@@ -74,6 +74,10 @@ func runC11(c *Ctx) []Obligation {
 		{Prop: P, ID: "runMsg.nondeliver-writes-no-app-field", Fn: fnRunMsg, Assume: []Lit{F(deliver)},
 			Target: StoreTo(`^app\.\w+(\[.*\])?$`), Why: "outside deliver mode runMsg leaves every BaseApp field (and map held in one) alone"},
 	})...)
+	// a query also must not reach consensus through memory: the keeper caches are keyed by address only and
+	// shared with block execution, and the only thing that keeps a query out of them is the historical-context
+	// mark on the context it runs in
+	out = append(out, c.lazyContextsMarked(P)...)
 	return out
 }
 
